@@ -126,8 +126,11 @@ class SocModel:
         self.p = p
         self.nspin = p["nspin"]
         self.n = p["nw"]
-        self.mu = wbsys.make_model(_model_params(p, "up"))
-        self.md = wbsys.make_model(_model_params(p, "dn")) if self.nspin == 2 else self.mu
+        # oneside: the up/down hoppings are listed for one direction only (R without -R); the code (like every System_R)
+        # then takes the Hermitian part of the Fourier sum at every k
+        closed = not p.get("oneside", False)
+        self.mu = wbsys.make_model(_model_params(p, "up"), closed=closed)
+        self.md = wbsys.make_model(_model_params(p, "dn"), closed=closed) if self.nspin == 2 else self.mu
         self.lattice = self.mu.lattice
         self.has_soc = p["soc"] is not None
         self.wcc_red = np.zeros((2 * self.n, 3))
